@@ -182,8 +182,13 @@ func runC10(w *World, r *Report) {
 						// the prefix buffer is the one later read with a 16-bit big-endian read
 						hdrBufObjCand, hdrObjCand := o, i
 						inspectAll(func(m ast.Node) bool {
-							if c, ok := m.(*ast.CallExpr); ok {
-								if fn, ok := typeutil.Callee(info, c).(*types.Func); ok && fn.Pkg() != nil && fn.Pkg().Path() == "encoding/binary" && fn.Name() == "Uint16" && len(c.Args) == 1 && usesObj(info, c.Args[0], hdrBufObjCand) {
+							if e, ok := m.(ast.Expr); ok {
+								if _, isCall := e.(*ast.CallExpr); !isCall {
+									if _, isBin := e.(*ast.BinaryExpr); !isBin {
+										return true
+									}
+								}
+								if b, _, _, wd, _, ok := be16Read(info, e); ok && wd == 2 && usesObj(info, b, hdrBufObjCand) {
 									hdrBufObj, hdrObj = hdrBufObjCand, hdrObjCand
 								}
 							}
@@ -193,16 +198,7 @@ func runC10(w *World, r *Report) {
 				}
 				// rem = int(binary.BigEndian.Uint16(hdrBuf[2:])) - 4
 				if o := cellObj(x.Lhs[0]); o != nil && len(x.Rhs) == 1 {
-					has16 := false
-					ast.Inspect(x.Rhs[0], func(m ast.Node) bool {
-						if c, ok := m.(*ast.CallExpr); ok {
-							if fn, ok := typeutil.Callee(info, c).(*types.Func); ok && fn.Pkg() != nil && fn.Pkg().Path() == "encoding/binary" && strings.HasPrefix(fn.Name(), "Uint") {
-								has16 = true
-							}
-						}
-						return true
-					})
-					if has16 {
+					if _, _, _, _, _, has16 := be16Read(info, singleReturnOf(w, info, x.Rhs[0])); has16 {
 						remObj, remAssign = o, x
 					}
 				}
@@ -384,36 +380,16 @@ func runC10(w *World, r *Report) {
 	// (c) remaining = int(BE16(prefix[2:])) - P
 	okRem := false
 	remDiag := "the remaining-bytes counter is not defined as the big-endian 16-bit value at offset 2 of the prefix buffer minus the prefix length"
-	if be, ok := unparen(remAssign.Rhs[0]).(*ast.BinaryExpr); ok && be.Op == token.SUB {
+	if be, ok := unparen(singleReturnOf(w, info, remAssign.Rhs[0])).(*ast.BinaryExpr); ok && be.Op == token.SUB {
 		if k, isC := constIntOf(info, be.Y); isC {
-			var c16 *ast.CallExpr
-			ast.Inspect(be.X, func(m ast.Node) bool {
-				if c, ok := m.(*ast.CallExpr); ok {
-					if fn, ok := typeutil.Callee(info, c).(*types.Func); ok && fn.Pkg() != nil && fn.Pkg().Path() == "encoding/binary" {
-						c16 = c
-					}
-				}
-				return true
-			})
-			if c16 != nil {
-				fn := typeutil.Callee(info, c16).(*types.Func)
-				order := ""
-				if se, ok := unparen(c16.Fun).(*ast.SelectorExpr); ok {
-					order = types.ExprString(se.X)
-				}
-				lo := int64(-1)
-				var base types.Object
-				if sl, ok := unparen(c16.Args[0]).(*ast.SliceExpr); ok && sl.Low != nil {
-					lo, _ = constIntOf(info, sl.Low)
-					base = cellObj(sl.X)
-				}
+			if rb, lo, order, _, name, found := be16Read(info, be.X); found {
 				switch {
-				case fn.Name() != "Uint16":
-					remDiag = "the length field is read as " + fn.Name() + ", not as a 16-bit value"
+				case name != "Uint16":
+					remDiag = "the length field is read as " + name + ", not as a 16-bit value"
 				case !strings.Contains(order, "BigEndian"):
 					remDiag = "the length field is read in " + order + " byte order, not big-endian"
-				case base != hdrBufObj || lo != 2:
-					remDiag = fmt.Sprintf("the length field is read from %s, not from offset 2 of the prefix buffer", types.ExprString(c16.Args[0]))
+				case cellObj(rb) != hdrBufObj || lo != 2:
+					remDiag = fmt.Sprintf("the length field is read from offset %d of %s, not from offset 2 of the prefix buffer", lo, types.ExprString(rb))
 				case k != P:
 					remDiag = fmt.Sprintf("the remaining counter subtracts %d, but %d prefix bytes were already consumed", k, P)
 				default:
@@ -1176,4 +1152,102 @@ func poolDisjoint(w *World, r *Report, so *streamObjs) {
 	if n == 0 {
 		r.Fail(VViolation, "pool-disjoint", "util.BufferPool", "", "-", "no site that fills the buffer pool was found (anchor of the rule cannot be resolved)")
 	}
+}
+
+// be16Read finds, inside e, a 16-bit (or other) big/little-endian read of a byte buffer: either a call of an
+// encoding/binary ByteOrder getter on a slice of the buffer, or the same spelled with shifts
+// (uint16(b[k])<<8 | uint16(b[k+1])). It returns the buffer expression, the offset of the first byte, the
+// byte order ("BigEndian"/"LittleEndian"), the width in bytes and the getter's name.
+func be16Read(info *types.Info, e ast.Expr) (base ast.Expr, lo int64, order string, width int, name string, ok bool) {
+	ast.Inspect(e, func(m ast.Node) bool {
+		if ok {
+			return false
+		}
+		switch x := m.(type) {
+		case *ast.CallExpr:
+			fn, isFn := typeutil.Callee(info, x).(*types.Func)
+			if !isFn || fn.Pkg() == nil || fn.Pkg().Path() != "encoding/binary" || !strings.HasPrefix(fn.Name(), "Uint") || len(x.Args) != 1 {
+				return true
+			}
+			if se, isSel := unparen(x.Fun).(*ast.SelectorExpr); isSel {
+				order = types.ExprString(se.X)
+				if i := strings.LastIndex(order, "."); i >= 0 {
+					order = order[i+1:]
+				}
+			}
+			name = fn.Name()
+			switch name {
+			case "Uint16":
+				width = 2
+			case "Uint32":
+				width = 4
+			case "Uint64":
+				width = 8
+			}
+			base, lo = x.Args[0], 0
+			if sl, isSl := unparen(x.Args[0]).(*ast.SliceExpr); isSl {
+				base = sl.X
+				if sl.Low != nil {
+					lo, _ = constIntOf(info, sl.Low)
+				}
+			}
+			ok = true
+			return false
+		case *ast.BinaryExpr:
+			// uint16(b[k])<<8 | uint16(b[k+1])   (also with +)
+			if x.Op != token.OR && x.Op != token.ADD {
+				return true
+			}
+			hi, isSh := unparen(x.X).(*ast.BinaryExpr)
+			if !isSh || hi.Op != token.SHL {
+				return true
+			}
+			if sh, isC := constIntOf(info, hi.Y); !isC || sh != 8 {
+				return true
+			}
+			byteAt := func(v ast.Expr) (ast.Expr, int64, bool) {
+				v = unparen(v)
+				if c, isCall := v.(*ast.CallExpr); isCall && len(c.Args) == 1 {
+					if tv, isT := info.Types[c.Fun]; isT && tv.IsType() {
+						v = unparen(c.Args[0])
+					}
+				}
+				ix, isIx := v.(*ast.IndexExpr)
+				if !isIx {
+					return nil, 0, false
+				}
+				k, isC := constIntOf(info, ix.Index)
+				return ix.X, k, isC
+			}
+			b1, k1, ok1 := byteAt(hi.X)
+			b2, k2, ok2 := byteAt(x.Y)
+			if ok1 && ok2 && types.ExprString(b1) == types.ExprString(b2) && k2 == k1+1 {
+				base, lo, order, width, name, ok = b1, k1, "BigEndian", 2, "Uint16", true
+				return false
+			}
+		}
+		return true
+	})
+	return
+}
+
+// singleReturnOf: for a call of a module function whose body is one `return <expr>`, that expression.
+func singleReturnOf(w *World, info *types.Info, e ast.Expr) ast.Expr {
+	c, ok := unparen(e).(*ast.CallExpr)
+	if !ok {
+		return e
+	}
+	fn, _ := typeutil.Callee(info, c).(*types.Func)
+	if fn == nil {
+		return e
+	}
+	fi := w.FuncOf(fn)
+	if fi == nil || fi.Decl.Body == nil || len(fi.Decl.Body.List) != 1 {
+		return e
+	}
+	rs, ok := fi.Decl.Body.List[0].(*ast.ReturnStmt)
+	if !ok || len(rs.Results) != 1 {
+		return e
+	}
+	return rs.Results[0]
 }
